@@ -8,3 +8,5 @@ pub mod listener;
 pub mod nu;
 pub mod store;
 pub mod trace;
+#[cfg(xs_verif)]
+pub mod verif;
